@@ -82,10 +82,8 @@ def scan (prevUS : Bool) (acc : Nat) : List Char → Option (Nat × List Char)
       if c = '_' then (if prevUS then none else scan true acc cs)
       else if prevUS then none else some (acc, c :: cs)
 
-/-- `int(s)` for an ASCII `str`; `none` = `ValueError: invalid literal for int() with base 10` -/
-def pyInt (s : List Char) : Option Int :=
-  let t := s.dropWhile isWs
-  match (sign t).2 with
+/-- after the blanks and the sign: a digit, the digit loop, trailing blanks, end of string -/
+def parseBody (neg : Bool) : List Char → Option Int
   | [] => none
   | c :: cs =>
     match digitVal c with
@@ -93,7 +91,11 @@ def pyInt (s : List Char) : Option Int :=
     | some d =>
       match scan false d cs with
       | none => none
-      | some (n, rest) => if rest.all isWs then some (applySign (sign t).1 n) else none
+      | some (n, rest) => if rest.all isWs then some (applySign neg n) else none
+
+/-- `int(s)` for an ASCII `str`; `none` = `ValueError: invalid literal for int() with base 10` -/
+def pyInt (s : List Char) : Option Int :=
+  parseBody (sign (s.dropWhile isWs)).1 (sign (s.dropWhile isWs)).2
 
 /-! ### the documented shape of an integer literal (specification of `pyInt`)
 
